@@ -22,7 +22,8 @@ RULE = ("full matrix of metadata_path {absent, given} x memory_cache_mb {absent,
         "cluster names (all orders of 3 repositories, prepend/append; random histories of look-ups - hits and misses - interleaved with repositories appended / prepended later, live environment and its rebuilt dump), and Environment(env.to_dict()) dumps; "
         "non-trivial = distinct option combinations with at least one non-default option"
         '; clusters listed under a name other than their own, in all source forms'
-        '; rounds 7-9: two live back-ends built from equal configurations observed side by side, every template rendered a second time with other values')
+        '; rounds 7-9: two live back-ends built from equal configurations observed side by side, every template rendered a second time with other values'
+        '; rounds 10-11: dumps of the repository / environment objects as built from JSON files, YAML templates with parameters and nested files')
 ASSUMPTIONS = ["behaviour, not attributes, is compared: where files appear, whether reads of 3 value sizes hit a "
                "cache, whether writes happen, whether forget is rejected, whether a body runs"]
 TIMEOUT = 600
